@@ -2113,6 +2113,18 @@ impl<'a> Searcher<'a> {
                         }
                         Op::Eeq => val.eq(&field_value.to_string()),
                         Op::Ene => val.ne(&field_value.to_string()),
+                        // two numeric literals, e.g. `3 > 2`
+                        Op::Gt | Op::Gte | Op::Lt | Op::Lte => {
+                            match (field_value.to_string().parse::<f64>(), val.parse::<f64>()) {
+                                (Ok(left), Ok(right)) => match op {
+                                    Op::Gt => left > right,
+                                    Op::Gte => left >= right,
+                                    Op::Lt => left < right,
+                                    _ => left <= right,
+                                },
+                                _ => false,
+                            }
+                        }
                         _ => false,
                     }
                 }
